@@ -437,6 +437,16 @@ class Interp:
     def call_fn(self, fn, owner, args, kwargs, st, self_=None, kind="inst",
                 mod=None):
         self.stats["calls"] += 1
+        for d_ in getattr(fn, "decorator_list", ()):
+            t_ = unparse(d_.func if isinstance(d_, ast.Call) else d_)
+            if t_.split(".")[-1] not in (
+                    "classmethod", "staticmethod", "property",
+                    "abstractmethod", "cached_property", "setter",
+                    "wraps", "lru_cache", "cache"):
+                # what runs is whatever the decorator returns, which this
+                # interpreter does not evaluate
+                raise Unsupported("%s is wrapped by the decorator @%s"
+                                  % (fn.name, unparse(d_, 60)))
         self.depth += 1
         if self.depth > 60:
             raise Unsupported("recursion too deep at %s" % fn.name)
